@@ -20,8 +20,8 @@ ASSUMPTIONS = ['"no alignment exists" is read as "no alignment of finite total c
                'failure must be reported as ValueError (the documented exception)',
                'ties: any optimal alignment is accepted (costs are compared, not paths)']
 N = {'quick': 4000, 'thorough': 150000}
-CLASSES = ['continuous', 'integer_ties', 'with_inf', 'boundary', 'small_brute', 'small_brute_inf', 'blank_in_labels', 'long', 'float32', 'float32_long']
-REQUIRED = ['presentation:0', 'presentation:1', 'presentation:2', 'presentation:5', 'float32_matrices', 'feasible_checked', 'infeasible_checked', 'brute_checked', 'align_text_checked', 'nojit_compared']
+CLASSES = ['continuous', 'integer_ties', 'with_inf', 'boundary', 'small_brute', 'small_brute_inf', 'blank_in_labels', 'long', 'float32', 'float32_long', 'large_alphabet']
+REQUIRED = ['negative_blank_index', 'narrow_label_arrays', 'presentation:0', 'presentation:1', 'presentation:2', 'presentation:5', 'float32_matrices', 'feasible_checked', 'infeasible_checked', 'brute_checked', 'align_text_checked', 'nojit_compared']
 TIMEOUT = {'quick': 900, 'thorough': 7200}
 
 
@@ -41,8 +41,13 @@ def gen(rng, i, ctx=None):
     if small:
         while C ** T > 5000:
             T -= 1
-    blank = int(rng.integers(0, C))
+    if cls == 'large_alphabet':
+        C = int(rng.choice([130, 257, 300]))
+        T = int(rng.integers(1, 25))
+    blank = int(rng.integers(0, C)) if cls != 'large_alphabet' or rng.random() < 0.3 else C - 1
     nonblank = [c for c in range(C) if c != blank]
+    if cls == 'large_alphabet':
+        nonblank = [c for c in nonblank if c < 120]           # labels fit the narrowest integer types, the blank index need not
     L = int(rng.integers(1, T + 2))
     if cls in ('long', 'float32', 'float32_long'):
         L = int(rng.integers(1, max(2, T // 2)))
@@ -65,16 +70,23 @@ def gen(rng, i, ctx=None):
     if cls.startswith('float32'):
         # what the networks deliver: float32 negative log-probabilities, possibly with a large common offset
         cost = (cost + float(rng.choice([0.0, 0.0, 50.0, 500.0]))).astype(np.float32)
-    return {'cost': cost, 'labels': labels, 'blank': blank, 'cls': cls}
+    case = {'cost': cost, 'labels': labels, 'blank': blank, 'cls': cls}
+    # drawn last: the blank given numpy-style as a negative index (same column), and for large alphabets the labels as a narrow integer array
+    if cls != 'blank_in_labels' and rng.random() < 0.15:
+        case['blank'] = blank - C
+    if cls == 'large_alphabet':
+        case['labels_dtype'] = str(rng.choice(['uint8', 'int8', 'uint16', 'int16', 'list']))
+    return case
 
 
 def describe(case):
     return {'cost': case['cost'], 'labels': case['labels'], 'blank': case['blank']}
 
 
-def run_force_align(fa, cost, labels, blank, **kw):
+def run_force_align(fa, cost, labels, blank, labels_dtype=None, **kw):
     try:
-        return 'ok', fa.force_align(cost.copy(), list(labels), blank, **kw)
+        lab = list(labels) if labels_dtype in (None, 'list') else np.array(labels, dtype=labels_dtype)
+        return 'ok', fa.force_align(cost.copy(), lab, blank, **kw)
     except ValueError as e:
         return 'ValueError', str(e)[:100]
     except Exception as e:
@@ -88,13 +100,18 @@ def check(case, mon, ctx):
     rows = cost.astype(np.float64).tolist()
     if cost.dtype == np.float32:
         mon.count('float32_matrices')
-    opt = min_cost_dp(rows, labels, blank)
-    brute = min_cost_brute(rows, labels, blank, limit=5000)
+    bpos = blank % cost.shape[1]          # the column a negative (numpy-style) blank index addresses
+    opt = min_cost_dp(rows, labels, bpos)
+    brute = min_cost_brute(rows, labels, bpos, limit=5000)
     if brute is not None:
         mon.count('brute_checked')
         if not (brute == opt or abs(brute - opt) < 1e-9):
             raise RuntimeError('oracle self-check failed: DP %r vs brute force %r' % (opt, brute))
-    status, res = run_force_align(fa, cost, labels, blank)
+    if blank < 0:
+        mon.count('negative_blank_index')
+    if case.get('labels_dtype') not in (None, 'list'):
+        mon.count('narrow_label_arrays')
+    status, res = run_force_align(fa, cost, labels, blank, labels_dtype=case.get('labels_dtype'))
     mon.observe('alignment', [status, [int(x) for x in res] if status == 'ok' else None])
     if opt == math.inf:
         mon.count('infeasible_checked')
@@ -109,11 +126,11 @@ def check(case, mon, ctx):
     if status != 'ok':
         mon.violation('failure-iff-infeasible', {'exception': status, 'msg': res, 'optimal_cost': opt})
         return
-    al = [int(x) for x in res]
+    al = [int(x) % cost.shape[1] for x in res]
     if len(al) != T:
         mon.violation('one-symbol-per-frame', {'len': len(al), 'T': T})
         return
-    if collapse(al, blank) != [int(x) for x in labels]:
+    if collapse(al, bpos) != [int(x) for x in labels]:
         mon.violation('collapses-to-labels', {'alignment': al})
         return
     c = float(sum(float(cost[t, a]) for t, a in enumerate(al)))
@@ -140,9 +157,9 @@ def check(case, mon, ctx):
     keep = np.array(cv, copy=True)
     try:
         r3 = fa.force_align(cv, lv, blank)
-        al3 = [int(x) for x in r3]
+        al3 = [int(x) % cost.shape[1] for x in r3]
         c3 = float(sum(float(cost[t, a]) for t, a in enumerate(al3))) if len(al3) == T else math.inf
-        if len(al3) != T or collapse(al3, blank) != [int(x) for x in labels] or not (c3 <= opt + 1e-9 * max(1.0, abs(opt))):
+        if len(al3) != T or collapse(al3, bpos) != [int(x) for x in labels] or not (c3 <= opt + 1e-9 * max(1.0, abs(opt))):
             mon.violation('minimal-cost', {'presentation': variant, 'alignment': al3, 'cost': c3, 'optimal': opt, 'note': 'same numbers, other memory layout / label container'})
     except Exception as e:
         mon.violation('failure-iff-infeasible', {'presentation': variant, 'exception': repr(e)[:200], 'optimal_cost': opt})
@@ -150,7 +167,7 @@ def check(case, mon, ctx):
         mon.violation('input-left-unchanged', {'presentation': variant})
     # positions variant must describe the same path
     status2, pos = run_force_align(fa, cost, labels, blank, return_seq_positions=True)
-    if status2 != 'ok' or len(pos) != T or any((p == -1) != (a == blank) or (p != -1 and labels[int(p)] != a) for p, a in zip(pos, al)):
+    if status2 != 'ok' or len(pos) != T or any((p == -1) != (a == bpos) or (p != -1 and labels[int(p)] != a) for p, a in zip(pos, al)):
         mon.violation('positions-consistent', {'alignment': al, 'positions': [int(p) for p in pos] if status2 == 'ok' else status2})
     # align_text: positions derived from the alignment it used (captured by the recorder)
     del ctx.log[:]
